@@ -110,6 +110,138 @@ func walkTree(p *clipper.PolyPathBase, depth int) int {
 	return n
 }
 
+// c03BooleanBody: every boolean entry point on one (subject, clip) input; sb is the subject path used for AddPath.
+func c03BooleanBody(c *drv.Ctx, S, C Paths, sb Path) {
+	SD, CD := clipper.Paths64ToPathsD(S), clipper.PathsD(nil)
+	if C != nil {
+		CD = clipper.Paths64ToPathsD(C)
+	}
+	args := func() string { return fmt.Sprintf("subject=%v clip=%v", S, C) }
+	interesting := false
+	for _, ct := range c03ClipType {
+		for _, fr := range c03FillRule {
+			sub := func() string { return fmt.Sprintf("ct=%d fr=%d %s", ct, fr, args()) }
+			guard(c, "BooleanOpPaths64", false, sub, func() {
+				r := clipper.BooleanOpPaths64(ct, S, C, fr)
+				c.Output(enum.HashPaths(r))
+				if len(r) > 0 {
+					interesting = true
+				}
+			})
+			for open := 0; open < 2; open++ {
+				guard(c, "Clipper64.ExecuteOC", false, sub, func() {
+					e := clipper.NewClipper64()
+					e.AddPaths(S, clipper.Subject, open == 1)
+					if C != nil {
+						e.AddPaths(C, clipper.Clip, false)
+					}
+					var cl, op Paths
+					if !e.ExecuteOC(ct, fr, &cl, &op) {
+						c.Fail("execute-false", "Clipper64.ExecuteOC", "ExecuteOC(ct=%d, fr=%d) returned false; openSubject=%v %s", ct, fr, open == 1, args())
+					}
+				})
+			}
+			guard(c, "Clipper64.Execute", false, sub, func() {
+				e := clipper.NewClipper64()
+				e.AddPath(sb, clipper.Subject, false)
+				if C != nil {
+					e.AddPaths(C, clipper.Clip, false)
+				}
+				var cl Paths
+				if !e.Execute(ct, fr, &cl) {
+					c.Fail("execute-false", "Clipper64.Execute", "Execute(ct=%d, fr=%d) returned false; %s", ct, fr, args())
+				}
+			})
+			guard(c, "Clipper64.ExecutePolyTree64", false, sub, func() {
+				e := clipper.NewClipper64()
+				e.AddPaths(S, clipper.Subject, false)
+				if C != nil {
+					e.AddPaths(C, clipper.Clip, false)
+				}
+				t := clipper.NewPolyTree64()
+				var op clipper.PathsD
+				if !e.ExecutePolyTree64(ct, fr, t, &op) {
+					c.Fail("execute-false", "Clipper64.ExecutePolyTree64", "ExecutePolyTree64(ct=%d, fr=%d) returned false; %s", ct, fr, args())
+				}
+				walkTree(t.PolyPathBase, 0)
+				_ = t.ToString()
+			})
+			if fr <= 3 && ct <= 4 && (ct+clipper.ClipType(fr))%3 == 0 {
+				guard(c, "BooleanOpPolyTree64", false, sub, func() {
+					t := clipper.BooleanOpPolyTree64(ct, S, C, fr)
+					walkTree(t.PolyPathBase, 0)
+				})
+				guard(c, "BooleanOpPathsD", false, sub, func() { clipper.BooleanOpPathsD(ct, SD, CD, fr) })
+				guard(c, "BooleanOpPolyTreeD", false, sub, func() {
+					t := clipper.BooleanOpPolyTreeD(ct, SD, CD, fr, 1)
+					walkTree(t.PolyPathBase, 0)
+				})
+				guard(c, "ClipperD.ExecuteOC/ExecutePolyTreeD", false, sub, func() {
+					e := clipper.NewClipperD(3)
+					e.AddPaths(SD, clipper.Subject, fr&1 == 1)
+					if CD != nil {
+						e.AddPaths(CD, clipper.Clip, false)
+					}
+					var cl, op clipper.PathsD
+					if !e.ExecuteOC(ct, fr, &cl, &op) {
+						c.Fail("execute-false", "ClipperD.ExecuteOC", "ClipperD.ExecuteOC(ct=%d, fr=%d) returned false; %s", ct, fr, args())
+					}
+					t := clipper.NewPolyTreeD()
+					if !e.ExecutePolyTreeD(ct, fr, t, &op) {
+						c.Fail("execute-false", "ClipperD.ExecutePolyTreeD", "ClipperD.ExecutePolyTreeD(ct=%d, fr=%d) returned false; %s", ct, fr, args())
+					}
+					e2 := clipper.NewClipperD(-1)
+					e2.AddPathsWithScaleFunc(SD, clipper.Subject, false, clipper.ScalePathsDToPaths64)
+					var c3, o3 clipper.PathsD
+					if !e2.ExecuteWithScaleFunc(ct, fr, &c3, &o3, clipper.ScalePath64ToPathD) {
+						c.Fail("execute-false", "ClipperD.ExecuteWithScaleFunc", "ClipperD.ExecuteWithScaleFunc(ct=%d, fr=%d) returned false; %s", ct, fr, args())
+					}
+					var cl2 clipper.PathsD
+					if !e.Execute(ct, fr, &cl2) {
+						c.Fail("execute-false", "ClipperD.Execute", "ClipperD.Execute(ct=%d, fr=%d) returned false; %s", ct, fr, args())
+					}
+				})
+			}
+		}
+	}
+	// the five convenience wrappers, 64 and D
+	for _, fr := range c03FillRule {
+		sub := func() string { return fmt.Sprintf("fr=%d %s", fr, args()) }
+		guard(c, "wrappers64", false, sub, func() {
+			clipper.UnionPaths64(S, fr)
+			clipper.UnionWithClipPaths64(S, C, fr)
+			clipper.IntersectWithClipPaths64(S, C, fr)
+			clipper.DifferenceWithClipPaths64(S, C, fr)
+			clipper.XorWithClipPaths64(S, C, fr)
+		})
+		guard(c, "wrappersD", false, sub, func() {
+			clipper.UnionPathsD(SD, fr)
+			clipper.UnionWithClipPathsD(SD, CD, fr)
+			clipper.IntersectWithClipPathsD(SD, CD, fr, 0)
+			clipper.DifferenceWithClipPathsD(SD, CD, fr, -2)
+			clipper.XorWithClipPathsD(SD, CD, fr, 4)
+		})
+	}
+	if interesting {
+		c.Nontriv()
+		c.Count("boolean_inputs_with_nonempty_result", 1)
+	}
+}
+
+// c03SpaceScope: the same entry points on the inputs of a closed boolean family (bitmaps of touching cells etc.).
+func c03SpaceScope(sp *BoolSpace) *drv.Scope {
+	var g genBuf
+	return &drv.Scope{Name: "boolean-family/" + sp.Name, Level: sp.Level, Size: sp.Size, Show: showBool(sp),
+		Run: func(c *drv.Ctx, idx uint64) {
+			S, C := sp.Gen(idx, &g)
+			var sb Path
+			if len(S) > 0 {
+				sb = S[0]
+			}
+			c03BooleanBody(c, S, C, sb)
+		}}
+}
+
 // c03Boolean: all boolean entry points, 64-bit and D, flat, open/closed and tree.
 func c03BooleanScope(name string, sa, ca *pathAlpha, twoPaths bool, level int) *drv.Scope {
 	nS, nC := sa.size(), ca.size()+2 // +2: nil clip, empty non-nil clip
@@ -152,120 +284,7 @@ func c03BooleanScope(name string, sa, ca *pathAlpha, twoPaths bool, level int) *
 					C = Paths{cb}
 				}
 			}
-			SD, CD := clipper.Paths64ToPathsD(S), clipper.PathsD(nil)
-			if C != nil {
-				CD = clipper.Paths64ToPathsD(C)
-			}
-			args := func() string { return fmt.Sprintf("subject=%v clip=%v", S, C) }
-			interesting := false
-			for _, ct := range c03ClipType {
-				for _, fr := range c03FillRule {
-					sub := func() string { return fmt.Sprintf("ct=%d fr=%d %s", ct, fr, args()) }
-					guard(c, "BooleanOpPaths64", false, sub, func() {
-						r := clipper.BooleanOpPaths64(ct, S, C, fr)
-						c.Output(enum.HashPaths(r))
-						if len(r) > 0 {
-							interesting = true
-						}
-					})
-					for open := 0; open < 2; open++ {
-						guard(c, "Clipper64.ExecuteOC", false, sub, func() {
-							e := clipper.NewClipper64()
-							e.AddPaths(S, clipper.Subject, open == 1)
-							if C != nil {
-								e.AddPaths(C, clipper.Clip, false)
-							}
-							var cl, op Paths
-							if !e.ExecuteOC(ct, fr, &cl, &op) {
-								c.Fail("execute-false", "Clipper64.ExecuteOC", "ExecuteOC(ct=%d, fr=%d) returned false; openSubject=%v %s", ct, fr, open == 1, args())
-							}
-						})
-					}
-					guard(c, "Clipper64.Execute", false, sub, func() {
-						e := clipper.NewClipper64()
-						e.AddPath(sb, clipper.Subject, false)
-						if C != nil {
-							e.AddPaths(C, clipper.Clip, false)
-						}
-						var cl Paths
-						if !e.Execute(ct, fr, &cl) {
-							c.Fail("execute-false", "Clipper64.Execute", "Execute(ct=%d, fr=%d) returned false; %s", ct, fr, args())
-						}
-					})
-					guard(c, "Clipper64.ExecutePolyTree64", false, sub, func() {
-						e := clipper.NewClipper64()
-						e.AddPaths(S, clipper.Subject, false)
-						if C != nil {
-							e.AddPaths(C, clipper.Clip, false)
-						}
-						t := clipper.NewPolyTree64()
-						var op clipper.PathsD
-						if !e.ExecutePolyTree64(ct, fr, t, &op) {
-							c.Fail("execute-false", "Clipper64.ExecutePolyTree64", "ExecutePolyTree64(ct=%d, fr=%d) returned false; %s", ct, fr, args())
-						}
-						walkTree(t.PolyPathBase, 0)
-						_ = t.ToString()
-					})
-					if fr <= 3 && ct <= 4 && (ct+clipper.ClipType(fr))%3 == 0 {
-						guard(c, "BooleanOpPolyTree64", false, sub, func() {
-							t := clipper.BooleanOpPolyTree64(ct, S, C, fr)
-							walkTree(t.PolyPathBase, 0)
-						})
-						guard(c, "BooleanOpPathsD", false, sub, func() { clipper.BooleanOpPathsD(ct, SD, CD, fr) })
-						guard(c, "BooleanOpPolyTreeD", false, sub, func() {
-							t := clipper.BooleanOpPolyTreeD(ct, SD, CD, fr, 1)
-							walkTree(t.PolyPathBase, 0)
-						})
-						guard(c, "ClipperD.ExecuteOC/ExecutePolyTreeD", false, sub, func() {
-							e := clipper.NewClipperD(3)
-							e.AddPaths(SD, clipper.Subject, fr&1 == 1)
-							if CD != nil {
-								e.AddPaths(CD, clipper.Clip, false)
-							}
-							var cl, op clipper.PathsD
-							if !e.ExecuteOC(ct, fr, &cl, &op) {
-								c.Fail("execute-false", "ClipperD.ExecuteOC", "ClipperD.ExecuteOC(ct=%d, fr=%d) returned false; %s", ct, fr, args())
-							}
-							t := clipper.NewPolyTreeD()
-							if !e.ExecutePolyTreeD(ct, fr, t, &op) {
-								c.Fail("execute-false", "ClipperD.ExecutePolyTreeD", "ClipperD.ExecutePolyTreeD(ct=%d, fr=%d) returned false; %s", ct, fr, args())
-							}
-							e2 := clipper.NewClipperD(-1)
-							e2.AddPathsWithScaleFunc(SD, clipper.Subject, false, clipper.ScalePathsDToPaths64)
-							var c3, o3 clipper.PathsD
-							if !e2.ExecuteWithScaleFunc(ct, fr, &c3, &o3, clipper.ScalePath64ToPathD) {
-								c.Fail("execute-false", "ClipperD.ExecuteWithScaleFunc", "ClipperD.ExecuteWithScaleFunc(ct=%d, fr=%d) returned false; %s", ct, fr, args())
-							}
-							var cl2 clipper.PathsD
-							if !e.Execute(ct, fr, &cl2) {
-								c.Fail("execute-false", "ClipperD.Execute", "ClipperD.Execute(ct=%d, fr=%d) returned false; %s", ct, fr, args())
-							}
-						})
-					}
-				}
-			}
-			// the five convenience wrappers, 64 and D
-			for _, fr := range c03FillRule {
-				sub := func() string { return fmt.Sprintf("fr=%d %s", fr, args()) }
-				guard(c, "wrappers64", false, sub, func() {
-					clipper.UnionPaths64(S, fr)
-					clipper.UnionWithClipPaths64(S, C, fr)
-					clipper.IntersectWithClipPaths64(S, C, fr)
-					clipper.DifferenceWithClipPaths64(S, C, fr)
-					clipper.XorWithClipPaths64(S, C, fr)
-				})
-				guard(c, "wrappersD", false, sub, func() {
-					clipper.UnionPathsD(SD, fr)
-					clipper.UnionWithClipPathsD(SD, CD, fr)
-					clipper.IntersectWithClipPathsD(SD, CD, fr, 0)
-					clipper.DifferenceWithClipPathsD(SD, CD, fr, -2)
-					clipper.XorWithClipPathsD(SD, CD, fr, 4)
-				})
-			}
-			if interesting {
-				c.Nontriv()
-				c.Count("boolean_inputs_with_nonempty_result", 1)
-			}
+			c03BooleanBody(c, S, C, sb)
 		}}
 }
 
@@ -577,7 +596,7 @@ func init() {
 		Rule: "explicit table of the exported entry points (boolean 64/D flat, open/closed, tree, wrappers, engine objects; inflate 64/D and ClipperOffset object incl. delta callback; rectangle clipping of polygons and lines 64/D and objects; Minkowski 64/D; trim/simplify/strip/area/bounds/point-in-polygon/scale/translate/ellipse/point and rect helpers; PolyTree node API) each bound to a finite argument alphabet: " +
 			"every path of P(3,0..n) (0-, 1-, 2-point, repeated, collinear, all-horizontal, zero-area paths are members) under unit and stride-10 embeddings, nil/empty/degenerate clip sets, clip types 0..5 and fill rules 0..4 (NoClip and one out-of-range value each), all rectangles with sides in {0..3} (empty and inverted included), 13 deltas from 0 to +-1e9, join types 0..4, end types 0..5, miter limits, arc tolerances, epsilons, precisions -100..100. " +
 			"Oracle: call returns (panic recovered in-process; worker death and a 60 s per-call watchdog turn crashes and hangs into violations); Execute* return true; the only tolerated panic is ErrPrecisionRange from a D entry point given a precision outside [-8,8]. non-trivial = input producing a non-empty result in at least one configuration",
-		Assumptions:      []string{"paths of at most 4-5 points, at most 2 paths per set", "deltas of 1e9 only with the default arc tolerance (step counts for an explicit tiny tolerance are outside the stated alphabet)"},
+		Assumptions:      []string{"paths of at most 4-5 points, at most 2 paths per set except in the bitmap (up to 20 touching squares) and three-triangle families", "deltas of 1e9 only with the default arc tolerance (step counts for an explicit tiny tolerance are outside the stated alphabet)"},
 		RequiredCounters: []string{"boolean_inputs_with_nonempty_result", "offset_inputs_with_nonempty_result", "rectclip_inputs_with_nonempty_result", "minkowski_inputs_with_nonempty_result", "documented_precision_panics"},
 		Scopes: func(tier string) []*drv.Scope {
 			u3, a3 := newPathAlpha(3, 3, enum.Eunit), newPathAlpha(3, 3, enum.Eax)
@@ -590,6 +609,7 @@ func init() {
 					c03BooleanScope("boolean/P(3,0..3) x P(3,0..2)/E_ax", a3, a2, false, 2),
 					c03BooleanScope("boolean2/P(3,0..2)^2 x 4 clips/E_ax", a2, a2, true, 3),
 					c03BooleanScope("boolean2/(every 7-th of P(3,0..3))^2 x 4 clips/E_ax", a3.strided(7), a3.strided(7), true, 3),
+					c03SpaceScope(spBitmap(3, false, true, 1, 4)), c03SpaceScope(spBitmap(4, true, true, 300007, 4)), c03SpaceScope(spThree(enum.Eax, 37, 4)),
 					c03OffsetScope("offset/P(3,0..3)/E_unit", u3, false, 2), c03OffsetScope("offset/P(3,0..3)/E_ax", a3, false, 2),
 					c03RectScope(newPathAlpha(4, 3, enum.Eax), 2),
 					c03MinkowskiScope(a3, a2, 2), c03MinkowskiScope(u2, u3, 2))
@@ -602,6 +622,7 @@ func init() {
 				c03BooleanScope("boolean/P(3,0..4) x P(3,0..3)/E_ax", a4, a3, false, 2),
 				c03BooleanScope("boolean2/P(3,0..3)^2 x 4 clips/E_ax", a3, a3, true, 3),
 				c03BooleanScope("boolean2/P(3,0..3)^2 x 4 clips/E_unit", u3, u3, true, 3),
+				c03SpaceScope(spBitmap(3, false, true, 1, 4)), c03SpaceScope(spBitmap(4, true, true, 30011, 4)), c03SpaceScope(spThree(enum.Eax, 13, 4)), c03SpaceScope(spThree(enum.Ean, 13, 4)),
 				c03OffsetScope("offset/P(3,0..4)/E_unit", u4, false, 2), c03OffsetScope("offset/P(3,0..4)/E_ax", a4, false, 2),
 				c03OffsetScope("offset2/P(3,0..2)^2/E_ax", a2, true, 3),
 				c03RectScope(newPathAlpha(4, 3, enum.Eax), 2), c03RectScope(newPathAlpha(4, 4, enum.Eax), 3), c03RectScope(newPathAlpha(4, 3, enum.Eunit), 2),
